@@ -225,7 +225,7 @@ package resharing
 //@ func (*round4).Start
 //@   deadpoints 2
 //@   note dead: the `len(paiProofCulprits) > 0` return after the new-committee loop (nothing is appended any more since fix 95e34fe returns at the first bad sum)
-//@   props C06 C05 C04
+//@   props C06 C05 C04 C11
 //@   requires round != nil && round.round3 != nil && round.round3.round2 != nil && round.round3.round2.round1 != nil && round.round3.round2.round1.base != nil && ecRsWF(round) && ecRsIdx(round)
 //@   requires [caller-config] round.ReSharingParameters.Parameters.concurrency > 0 && round.ReSharingParameters.Parameters.concurrency <= 1048576
 //@   requires [rounds-1-to-3-complete] rsNew(round.ReSharingParameters) ==> (rsOldN(round) >= 1 && (forall j in 0..rsOldN(round) :: (ecRs1full(round.temp.dgRound1Messages[j]) && ecRs3m1(round.temp.dgRound3Message1s[j]) && ecRs3m2(round.temp.dgRound3Message2s[j]))) && (forall j in 0..rsNewN(round) :: ecRs2m1(round.temp.dgRound2Message1s[j])))
@@ -237,6 +237,8 @@ package resharing
 //@   requires [flag-lists-are-separate] arr(round.oldOK) != arr(round.newOK)
 //@   ensures [C04,C05.no-acknowledgement-is-marked-before-it-arrives] result == nil ==> (forall k in 0..len(round.newOK) :: (round.newOK[k] ==> (rsNew(round.ReSharingParameters) && k == round.ReSharingParameters.Parameters.partyID.Index)))
 //@   site (*crypto.ECPoint).Equals#0 : [C04.the-summed-constant-commitment-is-compared-with-the-announced-public-key] $arg0 == Vc[0] && $arg1 == round.save.ECDSAPub
+//@   site append#0 : [C05,C11.the-modulus-proof-and-first-dln-proof-culprits-are-consulted] $arg0 == paiProofCulprits && $arg1 == dlnProof1FailCulprits
+//@   site append#1 : [C05,C11.the-second-dln-proof-culprits-are-consulted] $arg1 == dlnProof2FailCulprits
 //@   loop 0 invariant rsNew(round.ReSharingParameters) && round.started && fresh(paiProofCulprits) && fresh(dlnProof1FailCulprits) && fresh(dlnProof2FailCulprits) && len(paiProofCulprits) == rsNewN(round) && len(dlnProof1FailCulprits) == rsNewN(round) && len(dlnProof2FailCulprits) == rsNewN(round) && arr(paiProofCulprits) != arr(dlnProof1FailCulprits) && arr(paiProofCulprits) != arr(dlnProof2FailCulprits) && arr(dlnProof1FailCulprits) != arr(dlnProof2FailCulprits) && dlnVerifier != nil && wg != nil && h1H2Map != nil && fresh(h1H2Map) && i == round.ReSharingParameters.Parameters.partyID.Index
 //@   loop 0 invariant forall k in 0..$iter :: bitlen(rsNT(round.temp.dgRound2Message1s[k])) == 2048
 //@   loop 1 invariant rsNew(round.ReSharingParameters) && round.started && i == round.ReSharingParameters.Parameters.partyID.Index && (forall k in 0..rsNewN(round) :: bitlen(rsNT(round.temp.dgRound2Message1s[k])) == 2048)
